@@ -110,17 +110,21 @@ ByScan(f) == IF ~("rsp" \in f.valid) THEN None
 \* technique selection and the acceptance test
 Pick(f) == LET c1 == ByCfi(f) IN IF ~IsNone(c1) THEN c1 ELSE LET c2 == ByFp(f) IN IF ~IsNone(c2) THEN c2 ELSE ByScan(f)
 Accept(f, c) == ~IsNone(c) /\ c.ip >= 4096 /\ c.sp > f.sp
+\* the walk of a thread never has more frames than its stack memory has bytes, plus two (walk_stack)
+MaxFrames == NW * Ptr + 2
+Room == Len(frames) < MaxFrames
 Finish(c) == c @@ [instr |-> c.ip - 1]
 Last == frames[Len(frames)]
-StepCfi == /\ ~done /\ LET c == Pick(Last) IN /\ Accept(Last, c) /\ c.trust = "cfi" /\ frames' = Append(frames, Finish(c))
+StepCfi == /\ ~done /\ Room /\ LET c == Pick(Last) IN /\ Accept(Last, c) /\ c.trust = "cfi" /\ frames' = Append(frames, Finish(c))
            /\ UNCHANGED <<mem, rule, done, expect>>
-StepFp == /\ ~done /\ LET c == Pick(Last) IN /\ Accept(Last, c) /\ c.trust = "frame_pointer" /\ frames' = Append(frames, Finish(c))
+StepFp == /\ ~done /\ Room /\ LET c == Pick(Last) IN /\ Accept(Last, c) /\ c.trust = "frame_pointer" /\ frames' = Append(frames, Finish(c))
           /\ UNCHANGED <<mem, rule, done, expect>>
-StepScan == /\ ~done /\ LET c == Pick(Last) IN /\ Accept(Last, c) /\ c.trust = "scan" /\ frames' = Append(frames, Finish(c))
+StepScan == /\ ~done /\ Room /\ LET c == Pick(Last) IN /\ Accept(Last, c) /\ c.trust = "scan" /\ frames' = Append(frames, Finish(c))
             /\ UNCHANGED <<mem, rule, done, expect>>
 StopNoFrame == /\ ~done /\ IsNone(Pick(Last)) /\ done' = TRUE /\ UNCHANGED <<mem, rule, frames, expect>>
 StopRejected == /\ ~done /\ ~IsNone(Pick(Last)) /\ ~Accept(Last, Pick(Last)) /\ done' = TRUE /\ UNCHANGED <<mem, rule, frames, expect>>
-Next == StepCfi \/ StepFp \/ StepScan \/ StopNoFrame \/ StopRejected
+StopBound == /\ ~done /\ ~Room /\ Accept(Last, Pick(Last)) /\ done' = TRUE /\ UNCHANGED <<mem, rule, frames, expect>>
+Next == StepCfi \/ StepFp \/ StepScan \/ StopNoFrame \/ StopRejected \/ StopBound
 
 \* ---- Mode "any" ----
 Ctx0 == {[ip |-> i, instr |-> i, sp |-> s, bp |-> b, valid |-> {"rip","rsp","rbp"}, trust |-> "context"] :
@@ -184,7 +188,7 @@ WellFormed ==
        /\ frames[k].sp > frames[k-1].sp
        /\ frames[k].trust = "scan" => (Readable(frames[k].sp - Ptr) /\ Rd(frames[k].sp - Ptr) = frames[k].ip)
 \* ---- C03 frame bound: no more frames than the stack has bytes, plus two ----
-Bounded == Len(frames) <= NW * Ptr + 2
+Bounded == Len(frames) <= MaxFrames
 Cap == Len(frames) <= NW * Ptr + 3
 \* ---- C04: the walk of a built stack is exactly the generated chain, and stops at its end ----
 MatchesBuild == Mode = "built" =>
